@@ -225,6 +225,21 @@ def b6(ctx):
             aligned = off is not None and tag(off) == "alignUp" and off[1] == ("align_of", "T")
             yield Ob(key_of("C14-B6", b.path, "aligned"), aligned,
                      "returned pointer offset = %s: %s" % (short(off, 160) if off is not None else "?", "multiple of align_of T" if aligned else "NOT provably aligned"), ctx.loc(e))
+            # the owned handle of an empty allocation has no arena behind it (arena: Either::Right(dangling u8 pointer), Meta::null): its base pointer is
+            # address 1, so a pointer derived from it is neither aligned nor inside the arena - the Ok path must exclude the empty buffer
+            if h == "BytesMut":
+                fs0 = set(canon(f, IMMUT) for f in ctx.facts_of(ev, e))
+                nonempty = Order(fs0).le(const(1), cap_term())
+                yield Ob(key_of("C14-B6", b.path, "not-the-null-handle"), nonempty,
+                         "Ok(non-dangling) only for a buffer with capacity() >= 1 (the null owned handle's base pointer is NonNull::<u8>::dangling()): %s" % ("guarded" if nonempty else "NOT guarded"), ctx.loc(e))
+            # align_offset saturates to a misaligned u32::MAX when the aligned offset does not fit in a u32: the Ok path must exclude that value
+            # (a check that the low bits are zero, or room for at least one more byte below u32::MAX)
+            if aligned:
+                fs_ = set(canon(f, IMMUT) for f in ctx.facts_of(ev, e))
+                lowbits = any(f[0] == "cmp" and f[1] == "Eq" and is_const(f[3]) and f[3].c == 0 and tag(f[2]) == "op" and f[2][1] == "BitAnd" and cz(f[2][2]) == off for f in fs_)
+                below = Order(fs_, extra_ge0=[sub(const(2**32 - 1), cap_term())]).le(add(off, const(1)), const(2**32 - 1))
+                yield Ob(key_of("C14-B6", b.path, "not-saturated"), lowbits or below,
+                         "the aligned offset is a real multiple of align_of T, not the saturated u32::MAX: %s" % ("low bits tested" if lowbits else ("bounded below u32::MAX" if below else "NOT established")), ctx.loc(e))
             ls = [s for s in len_stores(res) if s["seq"] < e["seq"]]
             order, fs = order_for(ctx, ev, e, immut=IMMUT)
             ok_len = bool(ls) and all(order.le(cz(s["value"]), cap_term()) for s in ls)
